@@ -719,8 +719,8 @@ class Type3Tag(nfc.tag.Tag):
             if type(error) is nfc.clf.ProtocolError:  # pragma: no branch
                 raise Type3TagCommandError(nfc.tag.PROTOCOL_ERROR)
 
-        if rsp[0] != len(rsp):
-            log.debug("incorrect response length {0:02x}".format(rsp[0]))
+        if len(rsp) < 2 or rsp[0] != len(rsp):
+            log.debug("incorrect response length {0}".format(len(rsp)))
             raise Type3TagCommandError(RSP_LENGTH_ERROR)
         if rsp[1] != cmd_code + 1:
             log.debug("incorrect response code {0:02x}".format(rsp[1]))
@@ -733,6 +733,9 @@ class Type3Tag(nfc.tag.Tag):
             log.debug("<< {0:02x} {1:02x} {2}".format(
                 rsp[0], rsp[1], hexlify(rsp[2:]).decode()))
             return rsp[2:]
+        if check_status and len(rsp) < 12:
+            log.debug("response without status flags")
+            raise Type3TagCommandError(RSP_LENGTH_ERROR)
         if check_status and rsp[10] != 0:
             log.debug("tag returned error status {}".format(
                     hexlify(rsp[10:12]).decode()))
